@@ -40,7 +40,7 @@ def _case(n, initial, final, offset, pair, container='array', delta=0, vseed=0):
 
 def sweep(tier):
     cases = []
-    for n in range(0, 9):
+    for n in range(0, 33 if tier == 'thorough' else 9):
         for initial in (False, True):
             for final in (False, True):
                 for offset in (0, 5):
